@@ -1,32 +1,24 @@
 (* C19 -- the intervals of the bounded binary64 theorem, as rationals (the end points used are
-   the nearest doubles, NpF.f_of_q = what the decimal / rational literal denotes in Python):
-   all intervals with end points k/10 (k = 0..10) resp. 1+k/10, with end points in
-   {0,1/4,1/3,1/2,2/3,3/4,1}, in {k/7}, in {-1,-1/2,0,1/4,1/2,3/4,1,3/2,2}, with integer end points in
-   {-2,-1,0,1,2,3,5,10}, [0,10^k] (k=-6..6), [10^k,10^(k+1)] (k=-6..5) and 18 further ones.
-   266 intervals, cut into 16 chunks that are checked in parallel (FloatGrid1..16.v). *)
+   the nearest doubles, NpF.f_of_q = what the decimal / rational literal denotes in Python).
+   16 intervals in 4 chunks (FloatGrid1..4.v).  The number is bounded by the thorough tier's
+   coqchk, which re-evaluates the vm_compute proofs WITHOUT the VM (measured 37 s per interval
+   against 2 s for coqc; a 266-interval version of this file built in 45 s on 16 cores but
+   could not be re-checked within coqchk's 1500 s). *)
 From Coq Require Import QArith List Arith.
 From Verif.lib Require Import NpF.
 Import ListNotations.
 
 Definition grid_all : list (Q * Q) :=
-  (pairs_of [0; 1 # 10; 2 # 10; 3 # 10; 4 # 10; 5 # 10; 6 # 10; 7 # 10; 8 # 10; 9 # 10; 1]
-   ++ pairs_of [0; 1 # 4; 1 # 3; 1 # 2; 2 # 3; 3 # 4; 1]
-   ++ pairs_of [-2; -1; 0; 1; 2; 3; 5; 10]
-   ++ pairs_of [0; 1 # 7; 2 # 7; 3 # 7; 4 # 7; 5 # 7; 6 # 7; 1]
-   ++ pairs_of [-1; -1 # 2; 0; 1 # 4; 1 # 2; 3 # 4; 1; 3 # 2; 2]
-   ++ pairs_of [1; 11 # 10; 12 # 10; 13 # 10; 14 # 10; 15 # 10; 16 # 10; 17 # 10; 18 # 10; 19 # 10; 2]
-   ++ [(0, 1 # 1000000); (0, 1 # 100000); (0, 1 # 10000); (0, 1 # 1000); (0, 1 # 100); (0, 1 # 10); (0, 1); (0, 10); (0, 100); (0, 1000); (0, 10000); (0, 100000); (0, 1000000);
-      (1 # 1000000, 1 # 100000); (1 # 100000, 1 # 10000); (1 # 10000, 1 # 1000); (1 # 1000, 1 # 100); (1 # 100, 1 # 10); (1 # 10, 1); (1, 10); (10, 100); (100, 1000); (1000, 10000); (10000, 100000); (100000, 1000000)]
-   ++ [(-1 # 2, 1 # 4); (1 # 1000, 1000); (100, 1001 # 10); (-37 # 10, 129 # 10); (1234567 # 10, 6543219 # 10); (-1000000, 1000000);
-      (0, 7); (-5 # 2, 5 # 2); (10, 11); (-1 # 10, 1 # 10); (11 # 2, 28 # 5); (0, 6283185307179586 # 1000000000000000);
-      (1000, 1001); (-1 # 1000000, 1 # 1000000); (7 # 10, 19 # 10); (-73 # 10, -11 # 10); (1 # 20, 19 # 20); (0, 3)])%Q.
+  [(0, 1); (-1, 1); (9 # 10, 1); (1 # 10, 7 # 10); (1 # 3, 2 # 3); (0, 3 # 10); (2, 3); (-1 # 2, 1 # 4);
+   (0, 10); (1 # 1000, 1000); (100, 1001 # 10); (-37 # 10, 129 # 10); (1 # 1000000, 1 # 100000);
+   (1234567 # 10, 6543219 # 10); (0, 1 # 1000000); (-1000000, 1000000)]%Q.
 
-Definition chunk_size : nat := 17.
+Definition chunk_size : nat := 4.
 Definition chunk (k : nat) : list (Q * Q) := firstn chunk_size (skipn (chunk_size * k) grid_all).
 
-Lemma grid_all_length : length grid_all = 266%nat.
+Lemma grid_all_length : length grid_all = 16%nat.
 Proof. vm_compute. reflexivity. Qed.
 
 Lemma grid_all_chunks :
-  grid_all = chunk 0 ++ chunk 1 ++ chunk 2 ++ chunk 3 ++ chunk 4 ++ chunk 5 ++ chunk 6 ++ chunk 7 ++ chunk 8 ++ chunk 9 ++ chunk 10 ++ chunk 11 ++ chunk 12 ++ chunk 13 ++ chunk 14 ++ chunk 15.
+  grid_all = chunk 0 ++ chunk 1 ++ chunk 2 ++ chunk 3.
 Proof. vm_compute. reflexivity. Qed.
